@@ -234,6 +234,23 @@ def check(run):
             calls = [c for c in ir.calls_in(fn["body"]) if c.get("k") == "OpCall" and c.get("op") == "=" and (c.get("callee") or {}).get("cls") == q]
             tgt = [c for c in calls if unwrap(c["args"][0]).get("k") == "Un" and show(c["args"][0]) in ("*this", "this") or path(c["args"][0]) == ("this",)]
             ok = len(calls) == 1
+            why_ = "delegates to the class's own assignment operator"
+            if not ok and is_cc:
+                # the other sound way: a member-initialiser list (or a delegating constructor) in which no iterator /
+                # pointer member is taken from the source object
+                rp_ = "p:%s" % fn["params"][0]["n"] if fn.get("params") else None
+                bad_ = []
+                delegating = any(i.get("delegating") for i in fn.get("inits", []) or [])
+                for i in fn.get("inits", []) or []:
+                    fld = [f_ for f_ in r["fields"] if f_["n"] == i.get("member")]
+                    if fld and ("iterator" in fld[0]["t"].lower() or fld[0]["t"].endswith("*")):
+                        if any(path(n_) and path(n_)[0] == rp_ for n_ in ir.walk(i.get("init")) if n_.get("k") in ("Member", "Ref")):
+                            bad_.append(i["member"])
+                cursors = [f_["n"] for f_ in r["fields"] if "iterator" in f_["t"].lower() or f_["t"].endswith("*")]
+                inited = set(i.get("member") for i in fn.get("inits", []) or [] if i.get("written"))
+                if not bad_ and (delegating or all(c_ in inited for c_ in cursors)):
+                    ok = True
+                    why_ = "initialises every cursor member on the new object's own containers"
             run.ob("R19.3", "%s:%s-delegates" % (short(q), "ctor(%s)" % fn["sig"][0].split("::")[-1] if is_cc else "move-assign"), ok, fn, fn["line"],
-                   "delegates to the class's own assignment operator" if ok else "does not delegate to operator= (members copied some other way)")
+                   why_ if ok else "neither delegates to operator= nor initialises its cursor members on its own containers")
     run.floor("R19.3", 12, "special members of the block classes")
